@@ -70,3 +70,71 @@ func init() {
 	})
 	_ = fmt.Sprintf
 }
+
+func cliCheck(id, explain string) *checkDef {
+	return &checkDef{
+		ID: id, Pkg: "clih", Level: "other", NativeCheck: true, UseStubs: true, OnlyPrefix: id + "/",
+		Explanation: "Bounded exhaustive symbolic execution of the real cli/app App.Run (setup, file.Find, parser, file.New, initialise, showTasks, showVariables, handleDefault, runTasks, SpokFile.Run, IntegratedRunner.Run) on a sandbox HOME/proj in the in-memory file system. " +
+			"Family 'actions': every combination of --init --fmt --vars --show --quiet --json --force --debug x {valid, syntactically invalid, semantically invalid (duplicate task), absent} spokfile x cwd in {project root, nested directory} x {no task names, a task} x presence of .gitignore and of a cache directory. " +
+			"Family 'run': valid spokfile with tasks a (two commands), b (depends on a) and optionally default; --quiet/--json/--force; task lists {}, {a}, {b}, {a,b}, {undefined}; each command's exit status chosen from {0,1,2,128,255}; commands print known markers. " + explain +
+			" All variables are booleans/choices: inside the bound this is complete enumeration through the real code. Violations are replayed natively (real files in a temporary HOME, the real shell, the real JSON encoder, the real tab writer).",
+		Bounds: func(tier string) string {
+			return "family 'actions': 2^8 flag combinations x 4 spokfile variants x 2 working directories x 2 task lists x 2x2 pre-existing files; family 'run': 2^3 flags x 5 task lists x with/without a default task x 5 statuses per command (3-4 commands) x 2 working directories"
+		},
+		Outside: []string{
+			"flag parsing (FollowTheProcess/cli) and the process boundary: App.Options is the entry point; main's 'error -> exit 1' is not executed",
+			"--clean (C12's subject); .env loading; the debug log on standard error",
+			"the JSON encoder, tab alignment and colours (the value handed to the encoder, and trimmed cells, are checked under the engine; the native replay checks the real output)",
+			"exit statuses other than the five representatives",
+		},
+		Assumptions:  cliAssumptions,
+		EndSignature: map[string]string{"crash": id + "/panic", "budget": id + "/non-termination", "deadlock": id + "/deadlock"},
+		Jobs: func(tier string, seed int64) []jobSpec {
+			out := []jobSpec{
+				cliJob("Cli", map[string]string{"family": "actions", "shape": "actions"}),
+				cliJob("Cli", map[string]string{"family": "run", "shape": "run"}),
+				cliJob("CliRepeat", map[string]string{"shape": "repeat"}),
+			}
+			if id == "C09" {
+				// "the failed task is not treated as up to date by later runs": the history harness
+				// (package runh) with failing commands and --force, see checks_run.go
+				for _, j := range histJobs([]histShape{histShapes[0]}, 3, 1, 0, 0) {
+					j.Pkg = "runh"
+					out = append(out, j)
+				}
+				for _, j := range histJobs(histShapes[:4], 2, 1, 0, 0) {
+					j.Pkg = "runh"
+					out = append(out, j)
+				}
+			}
+			return out
+		},
+	}
+}
+
+func init() {
+	register(cliCheck("C09", "C09: whenever an executed command has a non-zero status App.Run returns an error that names a task with a failing command (also under --quiet, --json, --force), and it returns no error when every command succeeded."))
+	register(cliCheck("C19", "C19: the difference between the sandbox before and after the invocation is confined to what the action allows: --init creates cwd/spokfile only when absent and only appends to cwd/.gitignore; --fmt changes only the spokfile and only when it parsed and loaded; running tasks changes only proj/.spok (never a pre-existing foreign file in it); listings, --vars, usage and load errors change nothing."))
+	register(cliCheck("C20", "C20: with --json and no failing command nothing goes to the stream and exactly one document is printed whose value lists the tasks in execution order with every command's text, output, error output and status; --quiet prints nothing; --show/--vars/the default listing have one row per task/variable, sorted, with docstring/value; without task names the default task runs iff defined."))
+}
+
+func init() {
+	register(&checkDef{
+		ID: "C12", Pkg: "clih", Level: "other", NativeCheck: true, UseStubs: true, OnlyPrefix: "C12/",
+		Explanation: "Bounded exhaustive symbolic execution of the real App.Run with --clean (handleClean, clean, runTasks, task.New's output classification, filepath.Join/Abs/Clean, os.RemoveAll on the in-memory file system): one task whose output is a literal, a named variable or a glob, with the output text drawn from every string over {'.','/','o'} up to length 2 plus longer paths inside and outside the project; optionally a second task, a pre-existing cache, a task named clean; cwd in {project root, nested directory, file-system root}. " +
+			"On the before/after difference of the sandbox: the spokfile, its directory and everything above are never removed; nothing is created or modified; everything removed is the cache directory or designated by an output; every existing designated path inside the project is removed (files matching an output glob included); with a task named clean spok removes nothing itself and that task's command runs. All variables are choices: complete enumeration inside the bound.",
+		Bounds: func(tier string) string {
+			return "25 output texts x {literal, named} + 3 globs, x second task x pre-existing cache x clean task x 3 working directories (1272 configurations)"
+		},
+		Outside: []string{
+			"more than two tasks/outputs per kind; symbolic links; permission errors",
+			"a named output's value is accepted relative to the spokfile directory or to the working directory (the property does not say which)",
+			"native replay never runs configurations whose real RemoveAll could leave the temporary sandbox (absolute values, cwd=/): those are explored in the engine's file system only",
+		},
+		Assumptions:  cliAssumptions,
+		EndSignature: map[string]string{"crash": "C12/panic", "budget": "C12/non-termination", "deadlock": "C12/deadlock"},
+		Jobs: func(tier string, seed int64) []jobSpec {
+			return []jobSpec{cliJob("Clean", map[string]string{"shape": "clean"})}
+		},
+	})
+}
